@@ -185,7 +185,7 @@ def gen_op(rng: random.Random, cfg: dict, kind: str | None = None) -> dict:
             big=rng.random() < (0.35 if fl.get("trap") else 0.1),
             noop=rng.choice([None] * 30 + ["bg", "empty"]),
             merge_frames=rng.random() < 0.5, frames_prev=rng.random() < 0.5, extra_first=rng.random() < 0.5,
-            scribble=rng.random() < 0.25,
+            scribble=rng.random() < 0.25, split_entries=rng.random() < 0.2,
         )
         if inval:
             op["invalid"] = "two_frames"
